@@ -463,41 +463,21 @@ func runC16(c *Ctx) {
 					}
 				}
 			}
-			// and the test leads somewhere: knowing the error is not nil, no return is reachable that answers with
-			// something else than the status made from it
+			// and the test leads somewhere: knowing the error is not nil, the NAME reply is not reachable
 			if tested {
 				for _, r := range *call.Referrers() {
 					ex, ok := r.(*ssa.Extract)
 					if !ok || ex.Index != 1 {
 						continue
 					}
-					fromErr := func(v ssa.Value) bool {
-						for _, l := range leavesOf(v) {
-							cl, ok := l.V.(*ssa.Call)
-							if !ok || calleeName(&cl.Call) != "statusFromError" {
-								return false
-							}
-							uses := false
-							for _, a := range cl.Call.Args {
-								for _, la := range leavesOf(a) {
-									if la.V == ssa.Value(ex) {
-										uses = true
-									}
-								}
-							}
-							if !uses {
-								return false
-							}
-						}
-						return true
-					}
 					if len(nilTests(ex)) == 0 {
 						tested = false // compared, but nothing branches on the comparison
 					}
 					for _, t := range nilTests(ex) {
 						if reachFromNilSide(t, true, func(in ssa.Instruction) bool {
-							ret, ok := in.(*ssa.Return)
-							return ok && len(ret.Results) == 1 && !fromErr(ret.Results[0])
+							// the NAME reply is not begun once the error is known
+							a, ok := in.(*ssa.Alloc)
+							return ok && a.Heap && typeName(a.Type()) == "sshFxpNamePacket"
 						}, func(ssa.Instruction) bool { return false }) {
 							tested = false
 						}
